@@ -48,6 +48,8 @@ func runC10(c *Ctx) {
 	c10Alignment(c, m)
 	c10ExtendTail(c, m, "C10.page-tail")
 	c10Limit(c, m, "C10.limit-monotone")
+	// several writers: what one writes is what every reader finds (publication discipline)
+	c04Publication(c, m, "C10")
 }
 
 func commut(b *ssa.BinOp, op token.Token) (ssa.Value, ssa.Value, bool) {
